@@ -10,7 +10,7 @@ with two semaphores), so runs are deterministic.
 
 Only public API of revent is used: addListener / addListenerByName /
 add_listener / addListeners / listenTo / autoBindEvents, removeListener,
-raiseEvent / raiseEventNoErrors, _eventMixin_get_listener_count, the
+removeListeners, clearHandlers, raiseEvent / raiseEventNoErrors, _eventMixin_get_listener_count, the
 EventHalt... constants and Event.halt.
 """
 import io
@@ -193,6 +193,9 @@ class Adapter(object):
     if a == "Unsubscribe":
       sig["mode"] = args.get("mode")
       sig["handler_weakly_subscribed"] = (args.get("o"), args.get("m")) in self.weakh
+    if a == "UnsubscribeMany":
+      items = args.get("items") or []
+      sig["modes"] = sorted(set(it.get("mode") for it in items))
     if isinstance(obs, dict) and obs.get("k") == "inv":
       # the handler reported by the failing step had already run in this delivery
       d = self.deliv[-1] if self.deliv else []
@@ -365,6 +368,34 @@ class Adapter(object):
       if r not in (True, False):
         return O0(k="unsub", res="not-bool", n=self._count())
       return O0(k="unsub", alt=r, n=self._count())
+    if a == "UnsubscribeMany":
+      # the plural form: a list of handlers / eids / (type, eid) pairs exactly
+      # as addListener / autoBindEvents hand them out
+      lst = []
+      for it in args["items"]:
+        mode = it["mode"]
+        if mode == "handler":
+          lst.append(self._handler(it["o"], it["m"]))
+        elif mode == "eid":
+          lst.append(self._eid(it["id"]))
+        elif mode == "pair":
+          sid = it["id"]
+          if sid in self.eids and self.eids[sid][0] is EV[it["t"]]:
+            lst.append(self.eids[sid])      # the very object the code returned
+          else:
+            lst.append((EV[it["t"]], self._eid(sid)))
+        else:
+          raise ValueError(mode)
+      try:
+        r = src.removeListeners(lst)
+      finally:
+        del lst[:]
+      if r not in (True, False):
+        return O0(k="unsub", res="not-bool", n=self._count())
+      return O0(k="unsub", alt=r, n=self._count())
+    if a == "ClearAll":
+      src.clearHandlers()
+      return O0(k="clear", n=self._count())
     if a == "DropOwner":
       del self.owners[args["o"]]
       return O0(k="drop", n=self._count())
